@@ -373,6 +373,28 @@ def run_case(case):
         viol.append({"what": "hessian has shape %s, expected %s" % (Hp.shape, (nT, nT)), "signature": _sig("hessian:shape", nS), "detail": ""})
     else:
         scaleH = max(float(np.max(np.abs(H_true))), 2 * scaleJ)
+        # model tie of the assembly itself: the code's own integrated forward-forward block, residuals and JTJ pushed
+        # through the Lean `hessian` must reproduce the code's value (as coded, or with the sign/weight repair)
+        try:
+            Hf, o2 = L.hessian(th_arg, full_output=True)
+            Hf = np.asarray(Hf, float)
+            dl2 = (-2.0 * np.asarray(o2["resid"], float)).reshape(n, p_)
+            a2 = dict(nS=nS, nP=nP, ff=[fvec([Fraction(float(v)) for v in row]) for row in np.asarray(o2["hess"], float)],
+                      stateIdx=[int(k) for k in np.atleast_1d(L._stateIndex)], paramIdx=[int(k) for k in L._getTargetParamIndex()],
+                      dl=fmat([[Fraction(float(v)) for v in row] for row in dl2]), w=fmat([[Fraction(float(v)) for v in row] for row in W]),
+                      JTJ=fmat([[Fraction(float(v)) for v in row] for row in np.asarray(o2["JTJ"], float).reshape(nT, nT)]))
+            matched = None
+            for variant in ("coded", "repaired"):
+                lv = to_float(layout("hessian", variant=variant, **a2)).reshape(nT, nT)
+                if close_arr(Hf, lv, 1e-9, 1e-9 * scaleH + 1e-12):
+                    matched = variant
+                    break
+            if matched is None:
+                mism.append({"what": "hessian assembly vs Lean hessianCoded/hessianRepaired", "detail": worst(Hf, lv)})
+            else:
+                tags.append("hessian-assembly:model-variant=" + matched)
+        except Exception as exc:
+            mism.append({"what": "hessian(full_output=True) raised", "detail": "%s: %s" % (type(exc).__name__, str(exc)[:200])})
         tolH = 1e-3 * scaleH + 1e-4 * (1.0 + cost0)
         second_true = H_true - 2 * JTJ_true
         nontriv_h = bool(np.max(np.abs(second_true)) > 1e-2 * scaleH and scaleH > 1e-2 * (1.0 + cost0))
